@@ -262,7 +262,7 @@ impl<'r> G<'r> {
             self.sym("(");
             self.expr(names, d + 1);
             self.sym(")");
-        } else {
+        } else if self.r.chance(1, 2) {
             self.sym("(");
             self.expr(names, d + 1);
             self.sym(":");
@@ -270,6 +270,79 @@ impl<'r> G<'r> {
             self.sym(":");
             self.expr(names, d + 1);
             self.sym(")");
+        } else {
+            self.primary_extra(names, d);
+        }
+    }
+
+    /// further primaries of A.8.4 / A.8.1
+    fn primary_extra(&mut self, names: &[String], d: usize) {
+        match self.r.below(7) {
+            0 => {
+                // function call in an expression
+                let f = self.fresh(false);
+                self.id(&f);
+                self.sym("(");
+                self.expr(names, d + 2);
+                if self.r.chance(1, 2) {
+                    self.sym(",");
+                    self.expr(names, d + 2);
+                }
+                self.sym(")");
+            }
+            1 if !names.is_empty() => {
+                // hierarchical / member access
+                let a = self.r.pick(names).clone();
+                self.id(&a);
+                self.sym(".");
+                let m = self.fresh(false);
+                self.id(&m);
+                if self.r.chance(1, 3) {
+                    self.sym(".");
+                    let m2 = self.fresh(false);
+                    self.id(&m2);
+                }
+            }
+            2 => {
+                // assignment pattern
+                self.sym("'{");
+                if self.r.chance(1, 2) {
+                    self.kw("default");
+                    self.sym(":");
+                    self.num("0");
+                } else {
+                    self.num("0");
+                    self.sym(",");
+                    self.num("1");
+                }
+                self.sym("}");
+            }
+            3 => {
+                // streaming concatenation
+                self.sym("{");
+                self.symp(&["<<", ">>"]);
+                if self.r.chance(1, 2) {
+                    self.num("8");
+                }
+                self.sym("{");
+                self.expr(names, d + 2);
+                self.sym("}");
+                self.sym("}");
+            }
+            4 => {
+                // user-type / constant cast
+                self.num("8");
+                self.sym("'");
+                self.sym("(");
+                self.expr(names, d + 2);
+                self.sym(")");
+            }
+            5 => {
+                self.kwp(&["$time", "$realtime", "$random"]);
+            }
+            _ => {
+                self.kwp(&["this", "null"]);
+            }
         }
     }
 
@@ -1305,6 +1378,92 @@ impl<'r> G<'r> {
             self.sym(";");
             return;
         }
+        if (kind == "module" || kind == "interface") && names.len() >= 2 && self.r.chance(1, 6) {
+            let (a, b) = (names[0].clone(), names[1].clone());
+            match self.r.below(4) {
+                0 => {
+                    self.cnt("concurrent_assertion");
+                    if self.r.chance(1, 2) {
+                        let l = self.fresh(false);
+                        self.id(&l);
+                        self.fact("BlockIdentifier", &l);
+                        self.sym(":");
+                    }
+                    self.kwp(&["assert", "assume", "cover"]);
+                    self.kw("property");
+                    self.sym("(");
+                    self.sym("@");
+                    self.sym("(");
+                    self.kw("posedge");
+                    self.id(&a);
+                    self.sym(")");
+                    self.id(&a);
+                    self.symp(&["|->", "|=>"]);
+                    self.sym("##");
+                    self.num("1");
+                    self.id(&b);
+                    self.sym(")");
+                    self.sym(";");
+                }
+                1 => {
+                    self.cnt("property_decl");
+                    let p = self.fresh(false);
+                    self.kw("property");
+                    self.decl(&p, "property");
+                    self.fact("PropertyDeclaration", &p);
+                    self.sym(";");
+                    self.sym("@");
+                    self.sym("(");
+                    self.kw("posedge");
+                    self.id(&a);
+                    self.sym(")");
+                    self.id(&b);
+                    self.sym("|->");
+                    self.id(&a);
+                    self.sym(";");
+                    self.kw("endproperty");
+                }
+                2 => {
+                    self.cnt("sequence_decl");
+                    let q = self.fresh(false);
+                    self.kw("sequence");
+                    self.decl(&q, "sequence");
+                    self.fact("SequenceDeclaration", &q);
+                    self.sym(";");
+                    self.id(&a);
+                    self.sym("##");
+                    self.sym("[");
+                    self.num("1");
+                    self.sym(":");
+                    self.num("3");
+                    self.sym("]");
+                    self.id(&b);
+                    self.sym(";");
+                    self.kw("endsequence");
+                }
+                _ => {
+                    self.cnt("clocking");
+                    let c = self.fresh(false);
+                    if self.r.chance(1, 3) {
+                        self.kw("default");
+                    }
+                    self.kw("clocking");
+                    self.decl(&c, "clocking");
+                    self.fact("ClockingDeclaration", &c);
+                    self.sym("@");
+                    self.sym("(");
+                    self.kw("posedge");
+                    self.id(&a);
+                    self.sym(")");
+                    self.sym(";");
+                    self.kw("input");
+                    self.id(&b);
+                    self.sym(";");
+                    self.kw("endclocking");
+                }
+            }
+            return;
+        }
         match self.r.below(8) {
             0 => {
                 self.cnt("enum_var");
@@ -1580,6 +1739,16 @@ impl<'r> G<'r> {
             self.mods.push(ModInfo { name, ports, params, is_interface: kind == "interface" });
             return;
         }
+        if !self.packages.is_empty() && self.r.chance(1, 6) {
+            // A.1.2: package_import_declaration between the identifier and the parameter port list (not in the `( .* )` form)
+            let (p, _) = self.r.pick(&self.packages).clone();
+            self.kw("import");
+            self.id(&p);
+            self.sym("::");
+            self.sym("*");
+            self.sym(";");
+            self.fact("PackageImportDeclaration", &p);
+        }
         let has_params = self.r.chance(1, 2);
         if has_params {
             self.param_port_list(&mut params);
@@ -1598,6 +1767,21 @@ impl<'r> G<'r> {
                 for i in 0..nports {
                     if i > 0 {
                         self.sym(",");
+                    }
+                    let ifs: Vec<String> = self.mods.iter().filter(|m| m.is_interface).map(|m| m.name.clone()).collect();
+                    if !ifs.is_empty() && self.r.chance(1, 6) {
+                        // interface port: interface_identifier [ . modport_identifier ] port_identifier
+                        let ifn = self.r.pick(&ifs).clone();
+                        let p = self.fresh(false);
+                        self.id(&ifn);
+                        if self.r.chance(1, 2) {
+                            self.sym(".");
+                            let mp = self.fresh(false);
+                            self.id(&mp);
+                        }
+                        self.decl(&p, "port");
+                        self.fact("AnsiPortDeclaration", &p);
+                        continue;
                     }
                     let p = self.fresh(true);
                     let dir = *self.r.pick(&["input", "output", "inout"]);
@@ -1728,11 +1912,40 @@ impl<'r> G<'r> {
             self.num("1");
             self.sym(")");
         }
+        let classes: Vec<String> = self.facts.iter().filter(|f| f.kind == "ClassDeclaration" && f.name != name).map(|f| f.name.clone()).collect();
+        if !classes.is_empty() && self.r.chance(1, 3) {
+            let b = self.r.pick(&classes).clone();
+            self.kw("extends");
+            self.id(&b);
+        }
         self.sym(";");
         let n = self.r.range(0, 4);
         let mut props: Vec<String> = Vec::new();
         for _ in 0..n {
-            match self.r.below(3) {
+            match self.r.below(4) {
+                3 => {
+                    // constraint block over a (possibly undeclared) random variable
+                    let c = self.fresh(false);
+                    let v = if props.is_empty() { self.fresh(false) } else { self.r.pick(&props).clone() };
+                    self.kw("constraint");
+                    self.decl(&c, "constraint");
+                    self.fact("ConstraintDeclaration", &c);
+                    self.sym("{");
+                    self.id(&v);
+                    self.symp(&[">", "<", "==", "inside"]);
+                    if self.toks.last().unwrap().text == "inside" {
+                        self.toks.last_mut().unwrap().kind = TK::Kw;
+                        self.sym("{");
+                        self.num("1");
+                        self.sym(",");
+                        self.num("2");
+                        self.sym("}");
+                    } else {
+                        self.num("3");
+                    }
+                    self.sym(";");
+                    self.sym("}");
+                }
                 0 => {
                     if self.r.chance(1, 3) {
                         self.kwp(&["rand", "local", "protected", "static"]);
